@@ -48,14 +48,22 @@ def frag_real(i):
     return list(soup.children)[0].copy()
 
 
-def material(codes):
+def material(codes, held=None):
     """codes: list of ints -> (real objects, model objects, has_node)"""
     real, model = [], []
     for c in codes:
         c = c % (len(STRINGS) + len(FRAG_SRC))
         if c < len(STRINGS):
-            real.append(STRINGS[c])
-            model.append(M.MText(STRINGS[c]))
+            mt = M.MText(STRINGS[c])
+            if held is not None and (c + len(codes)) % 3 == 0:
+                # a freshly made text NODE; the caller keeps the wrapper and may edit through it later
+                from TexSoup.data import TexNode, TexText
+                w = TexNode(TexText(STRINGS[c]))
+                held.append((w, mt))
+                real.append(w)
+            else:
+                real.append(STRINGS[c])
+            model.append(mt)
         else:
             i = c - len(STRINGS)
             real.append(frag_real(i))
@@ -70,6 +78,22 @@ def bulk(a, b, c):
     if (a + 2 * b + 3 * c) % 9:
         return []
     return [b + k * (c + 1) for k in range(16 + (a + c) % 25)]
+
+
+def find_item(owner, target):
+    """(list, index) of a model item (by identity) anywhere below owner, or None."""
+    lists = [a.body for a in (getattr(owner, 'args', []) or []) if a.kind == 'group']
+    if getattr(owner, 'body', None) is not None:
+        lists.append(owner.body)
+    for lst in lists:
+        for i, it in enumerate(lst):
+            if it is target:
+                return lst, i
+            if M.is_node(it):
+                r = find_item(it, target)
+                if r is not None:
+                    return r
+    return None
 
 
 class Diverged(Exception):
@@ -141,6 +165,28 @@ def invariants(soup, root, case, step):
         if found != sorted(renders):
             raise H.Violation('C15:search', case, 'after step %d find_all(%r) gives %r, the model has %r' % (
                 step, name, found[:4], sorted(renders)[:4]))
+    # an environment also answers to its current opening delimiter (and to no other)
+    envs = {}
+    for n, owner, lst, i, p in M.walk(root):
+        if n.kind == 'env' and getattr(n, 'name', None) and n.name not in G.SKIP_BUILTIN:
+            envs.setdefault(n.name, []).append(n.render())
+    for name in sorted(envs)[:3]:
+        q = '\\begin{%s}' % name
+        try:
+            found = sorted(str(f) for f in soup.find_all(q) if type(f.expr).__name__ == 'TexNamedEnv')
+            cnt = soup.count(q)
+        except Exception as e:  # noqa
+            raise H.Violation('C15:find_all:raised-%s@%s' % (type(e).__name__, H.inner_frame(e)), case,
+                              'after step %d find_all(%r) raised %r' % (step, q, e))
+        want_env = sorted(r for r in envs[name] if r.startswith(q))
+        if found != want_env or cnt < len(want_env):
+            raise H.Violation('C15:search-by-opening', case, 'after step %d find_all(%r) gives %d environments, the model has %d' % (
+                step, q, len(found), len(want_env)))
+    for stale in sorted(case.get('_old_env_names', ()))[:2]:
+        if stale not in envs and '{' not in stale:
+            q = '\\begin{%s}' % stale
+            if [f for f in soup.find_all(q) if O.classify(f) == 'node' and type(f.expr).__name__ == 'TexNamedEnv' and not str(f).startswith(q)]:
+                raise H.Violation('C15:search-by-opening', case, 'after step %d find_all(%r) still returns a renamed environment' % (step, q))
     # navigation consistency
     try:
         desc = list(soup.descendants)
@@ -187,7 +233,8 @@ def apply_step(soup, root, op, case, k, flags):
     nodes = list(M.walk(root))
     conts = [(root, ())] + [(n, p) for n, owner, lst, i, p in nodes if getattr(n, 'body', None) is not None and
                             (n.kind != 'cmd' or n.name == 'item')]
-    code = code % 14
+    code = code % 15
+    held = case.setdefault('_held', [])
 
     def pick_node(pred=lambda n, owner, lst, i, p: True):
         cands = [t for t in nodes if pred(*t)]
@@ -234,7 +281,7 @@ def apply_step(soup, root, op, case, k, flags):
     if code in (3, 4):  # insert / append
         owner, p = conts[a % len(conts)]
         cn = resolve(soup, p)
-        real, model = material([b, c][:1 + c % 2] + bulk(a, b, c))
+        real, model = material([b, c][:1 + c % 2] + bulk(a, b, c), held if code == 3 else None)   # only insert() links a kept wrapper to its new parent
         mlist = owner.body
         if code == 4:
             cn.append(*real)
@@ -285,6 +332,29 @@ def apply_step(soup, root, op, case, k, flags):
         del lst[i]
         flags.add('move-by-copy-insert-delete')
         return 'move %r -> %r @%d' % (p, dp, mi)
+    if code == 14:      # delete / replace an inserted text node through the wrapper that was kept at insertion time
+        alive = []
+        for w, mt in held:
+            loc = find_item(root, mt)
+            if loc is not None:
+                alive.append((w, mt, loc))
+        if not alive:
+            return None
+        w, mt, (lst, i) = alive[a % len(alive)]
+        if b % 2:
+            w.delete()
+            del lst[i]
+            desc = 'held text node.delete()'
+        else:
+            new = STRINGS[c % len(STRINGS)]
+            w.replace_with(new)
+            lst[i:i + 1] = [M.MText(new)]
+            desc = 'held text node.replace_with(%r)' % new
+        held[:] = [(x, y) for x, y in held if y is not mt]
+        flags.add('edit-through-held-wrapper')
+        if sum(1 for x in lst if x.kind == 'text' and x.s == mt.s) >= 1:
+            flags.add('target-has-textual-twin')
+        return desc
     if code == 5:       # rename
         t = pick_node(lambda n, owner, lst, i, p: n.kind in ('cmd', 'env') and n.name != 'item')
         if t is None:
@@ -297,6 +367,8 @@ def apply_step(soup, root, op, case, k, flags):
             new = NEW_MATH_NAMES[b % len(NEW_MATH_NAMES)]
         else:
             new = NEW_ENV_NAMES[b % len(NEW_ENV_NAMES)]
+        if n.kind == 'env':
+            case.setdefault('_old_env_names', set()).add(n.name)
         resolve(soup, p).name = new
         n.name = new
         return 'rename %r -> %s' % (p, new)
@@ -383,6 +455,8 @@ def apply_step(soup, root, op, case, k, flags):
 
 def run_history(nodes, src, ops, case, res=None):
     from TexSoup import TexSoup
+    case.pop('_held', None)
+    case.pop('_old_env_names', None)
     soup = D.parse(src, 'C15', case)
     root = M.MRoot(M.from_syntax(nodes))
     flags = set()
@@ -428,7 +502,7 @@ def tiny_docs():
 
 
 def small_ops():
-    return [(code, a, b, 0) for code in range(14) for a in range(3) for b in range(2)]
+    return [(code, a, b, 0) for code in range(15) for a in range(3) for b in range(2)]
 
 
 def plan(ctx):
@@ -476,7 +550,7 @@ def shard_histories(ctx, shard):
     from hypothesis import strategies as st
     res = H.Result()
     prof = ['tinytwin', 'smalltwin', 'tinytwin', 'smalllists', 'wide'][idx % 5]
-    op = st.tuples(st.integers(0, 13), st.integers(0, 40), st.integers(0, 40), st.integers(0, 40))
+    op = st.tuples(st.integers(0, 14), st.integers(0, 40), st.integers(0, 40), st.integers(0, 40))
     strat = st.tuples(G.wfdoc(prof), st.lists(op, min_size=2, max_size=maxlen))
 
     def prop(c):
